@@ -65,8 +65,11 @@ static void wfail(const char *what)
 }
 #define CK(cond, what) do { if (!(cond)) wfail(what); } while (0)
 
-/* non-zero when [p,p+n) is not entirely inside a live allocation */
-static int rg_bad(const void *p, size_t n)
+/* non-zero when [p,p+n) is not entirely inside a live allocation.
+   node != 0: a struct (padding may legitimately be undefined, so only
+   addressability is required); node == 0: a byte buffer the API exposes (under
+   memcheck every byte must also be defined) */
+static int rg_bad(const void *p, size_t n, const char *what, int node)
 {
     if (n == 0)
     {
@@ -77,16 +80,27 @@ static int rg_bad(const void *p, size_t n)
         return 1;
     }
 #ifdef C09_ASAN
+    (void) what;
+    (void) node;
     return __asan_region_is_poisoned((void *) p, n) != NULL;
 #else
 # ifdef C09_VG
     if (RUNNING_ON_VALGRIND)
     {
-        /* memcheck reports unaddressable or undefined bytes itself */
-        (void) VALGRIND_CHECK_MEM_IS_DEFINED(p, n);
+        if (VALGRIND_CHECK_MEM_IS_ADDRESSABLE(p, n) != 0)
+        {
+            return 1;
+        }
+        if (!node && VALGRIND_CHECK_MEM_IS_DEFINED(p, n) != 0)
+        {
+            /* memcheck has printed the origin; name the field and go on */
+            fprintf(stderr, "C09-WALKER: c09:walker:%s-undefined-bytes\n", what);
+        }
         return 0;
     }
 # endif
+    (void) what;
+    (void) node;
     {
         size_t i;
         unsigned s = 0;
@@ -102,7 +116,8 @@ static int rg_bad(const void *p, size_t n)
     return 0;
 #endif
 }
-#define RG(p, n, what) CK(!rg_bad((p), (size_t) (n)), what)
+#define RG(p, n, what) CK(!rg_bad((p), (size_t) (n), (what), 0), what)
+#define RGN(p, n, what) CK(!rg_bad((p), (size_t) (n), (what), 1), what)
 
 /* C string without a recorded length: a NUL must be found inside the block */
 static size_t cstr_len(const char *s, const char *what)
@@ -127,7 +142,8 @@ static void walk_pstm(const pstm_int *a, const char *what)
         return;
     }
     CK(a->used <= a->alloc, what);
-    RG(a->dp, (size_t) a->alloc * sizeof(pstm_digit), what);
+    RGN(a->dp, (size_t) a->alloc * sizeof(pstm_digit), what);
+    RG(a->dp, (size_t) a->used * sizeof(pstm_digit), what);
 }
 
 #ifdef USE_RSA
@@ -233,14 +249,14 @@ static void walk_dn(const x509DNattributes_t *dn, int accessors)
     for (n = 0, ou = dn->orgUnit; ou; ou = ou->next)
     {
         CK(++n <= 70000, "dn-orgunit-list-unbounded");
-        RG(ou, sizeof *ou, "dn-orgunit-node");
+        RGN(ou, sizeof *ou, "dn-orgunit-node");
         CK(ou->name != NULL, "dn-orgunit-null-name");
         walk_dn_attr(ou->name, ou->type, ou->len);
     }
     for (n = 0, dc = dn->domainComponent; dc; dc = dc->next)
     {
         CK(++n <= 70000, "dn-dc-list-unbounded");
-        RG(dc, sizeof *dc, "dn-dc-node");
+        RGN(dc, sizeof *dc, "dn-dc-node");
         CK(dc->name != NULL, "dn-dc-null-name");
         walk_dn_attr(dc->name, dc->type, dc->len);
     }
@@ -293,7 +309,7 @@ static void walk_gn(const x509GeneralName_t *g, const char *lst)
     for (; g; g = g->next)
     {
         CK(++n <= 70000, "gn-list-unbounded");
-        RG(g, sizeof *g, "gn-node");
+        RGN(g, sizeof *g, "gn-node");
         CK(memchr(g->name, 0, sizeof g->name) != NULL, "gn-typename-unterminated");
         if (g->data)
         {
@@ -339,7 +355,7 @@ static void walk_ext(const x509v3extensions_t *e)
         for (a = e->authorityInfoAccess; a; a = a->next)
         {
             CK(++n <= 70000, "aia-list-unbounded");
-            RG(a, sizeof *a, "aia-node");
+            RGN(a, sizeof *a, "aia-node");
             if (a->ocsp)
             {
                 RG(a->ocsp, a->ocspLen, "aia-ocsp-region");
@@ -360,7 +376,7 @@ static void walk_ext(const x509v3extensions_t *e)
         for (p = e->certificatePolicy.policy; p; p = p->next)
         {
             CK(++n <= 70000, "policy-list-unbounded");
-            RG(p, sizeof *p, "policy-node");
+            RGN(p, sizeof *p, "policy-node");
             if (p->policyAsnOid)
             {
                 RG(p->policyAsnOid, sizeof(psAsnOid_t), "policy-oid-region");
@@ -370,7 +386,7 @@ static void walk_ext(const x509v3extensions_t *e)
             for (nq = 0, q = p->qualifiers; q; q = q->next)
             {
                 CK(++nq <= 70000, "policy-qualifier-list-unbounded");
-                RG(q, sizeof *q, "policy-qualifier-node");
+                RGN(q, sizeof *q, "policy-qualifier-node");
                 if (q->cps)
                 {
                     RG(q->cps, (size_t) q->cpsLen + 1, "policy-cps-region");
@@ -392,7 +408,7 @@ static void walk_ext(const x509v3extensions_t *e)
         for (n = 0, m = e->policyMappings; m; m = m->next)
         {
             CK(++n <= 70000, "policy-mapping-list-unbounded");
-            RG(m, sizeof *m, "policy-mapping-node");
+            RGN(m, sizeof *m, "policy-mapping-node");
             if (m->issuerDomainPolicy)
             {
                 RG(m->issuerDomainPolicy, sizeof(psAsnOid_t), "policy-mapping-oid-region");
@@ -425,7 +441,7 @@ static void walk_cert_chain(psX509Cert_t *c)
     for (; c; c = c->next)
     {
         CK(++n <= 70000, "cert-chain-unbounded");
-        RG(c, sizeof *c, "cert-node");
+        RGN(c, sizeof *c, "cert-node");
         if (c->signature)
         {
             RG(c->signature, c->signatureLen, "cert-signature-region");
@@ -499,7 +515,7 @@ static void walk_crl(const psX509Crl_t *crl)
     const x509revoked_t *r;
     unsigned n = 0;
 
-    RG(crl, sizeof *crl, "crl-node");
+    RGN(crl, sizeof *crl, "crl-node");
     if (crl->sig)
     {
         RG(crl->sig, crl->sigLen, "crl-signature-region");
@@ -514,7 +530,7 @@ static void walk_crl(const psX509Crl_t *crl)
     for (r = crl->revoked; r; r = r->next)
     {
         CK(++n <= 70000, "crl-revoked-list-unbounded");
-        RG(r, sizeof *r, "crl-revoked-node");
+        RGN(r, sizeof *r, "crl-revoked-node");
         if (r->serial)
         {
             RG(r->serial, r->serialLen, "crl-revoked-serial-region");
@@ -591,7 +607,7 @@ static int t_pemcertlist(unsigned char *in, size_t n)
         for (e = l; e; e = e->next)
         {
             CK(++cnt <= 70000, "pemlist-unbounded");
-            RG(e, sizeof *e, "pemlist-node");
+            RGN(e, sizeof *e, "pemlist-node");
             if (e->item)
             {
                 RG(e->item, e->len, "pemlist-item-region");
@@ -984,7 +1000,7 @@ static void walk_keys(sslKeys_t *keys)
     for (id = keys->identity; id; id = id->next)
     {
         CK(++n <= 70000, "keys-identity-list-unbounded");
-        RG(id, sizeof *id, "keys-identity-node");
+        RGN(id, sizeof *id, "keys-identity-node");
         walk_pubkey(&id->privKey);
         walk_cert_chain(id->cert);
     }
